@@ -1,17 +1,17 @@
 CONSTANTS
   NumBlocks = {5, 50, 500}
-  CallBlocks = {500}
+  CallBlocks = {}
   LogBlocks = {}
   Extra = FALSE
   MaxLen = 3
   Latests = {627, 1000}
   Rule = 127
-  Seed = FALSE
+  Seed = TRUE
   Guard = TRUE
-  Tendermint = FALSE
-  ZeroOk = FALSE
-  EarliestLow = FALSE
+  Tendermint = TRUE
+  ZeroOk = TRUE
+  EarliestLow = TRUE
 INIT Init
 NEXT Next
-INVARIANTS OrderIndependent
+INVARIANTS Emit
 CHECK_DEADLOCK FALSE
